@@ -129,6 +129,21 @@ def bindtest() -> int:
         _first(evs, lambda x: x["ev"] == "Dgram" and len(x["delivered"]) == 1 and not x.get("cut"))
     except StopIteration:
         plan.pop()
+    # C18: the device resets the session; the socket closed behind a connected client; a connect that opens nothing
+    p, evs = _record("C18", lambda s: s["mode"] == "virtual" and s["word"][:4] == ["connect", "op-reset", "disconnect", "connect"])
+    def l_eof(e):
+        i = _first(e, lambda x: x["ev"] == "Flag" and x["flag"]); e[i]["eofnow"] = True; return e
+    def l_new(e):
+        i = max(k for k, x in enumerate(e) if x["ev"] == "Connect" and x["ok"]); e[i]["newconn"] = False; return e
+    def l_flag(e):
+        i = _first(e, lambda x: x["ev"] == "Reset")
+        j = next(k for k in range(i, len(e)) if e[k]["ev"] == "Flag"); e[j]["flag"] = False; return e
+    def l_hook(e):
+        i = _first(e, lambda x: x["ev"] == "Reset"); del e[i]; return e
+    plan.append((p, evs, [("the device saw end-of-stream while connected", "C18:socket-closed-while-connected", l_eof),
+                          ("the reconnect reached no device", "C18:connect-opened-no-connection", l_new),
+                          ("flag cleared by the reset", "C18:connected-iff-open", l_flag),
+                          ("the reset event removed", "C18:disconnect-raised", l_hook)]))
     px = props.load("X06")
     ctxx = Ctx("quick", 20260927)
     sx = [s for s in px.scenarios(ctxx) if any(d["src"] == s["ip"] and d["at"] < 1900 and ("d" in d or len(d.get("raw", [])) >= 41) for d in s["dgrams"])][:1]
